@@ -8,7 +8,7 @@
 Require Import Base Overlap Mask MaskProofs.
 Require Import OverlapProofs Tables_lexer Lexer Condense ListLemmas TokenInv CondenseInv LexerProofs
   CondPatterns3 CondPattern CondSpaces CondInitialisms CondSuffixQuotes Shape NumberFinite WordsMaximal DocumentProofs
-  C02Wrappers C02Gapped C02WrappersProofs C02Quotes C02GapPasses C02Markdown C02MarkdownProofs C02NumberText C02Findings C02ZeroWidth C02ZeroWidthSuffix C02ZeroWidthDoc.
+  C02Wrappers C02Gapped C02WrappersProofs C02Quotes C02GapPasses C02Markdown C02MarkdownProofs C02NumberText C02Findings C02ZeroWidth C02ZeroWidthSuffix C02ZeroWidthDoc C02Inert C02ZeroWidthNl.
 From Coq Require Import ZArith.
 
 (* ---------- the lexer ---------- *)
@@ -820,3 +820,74 @@ Example C02_document_markdown_breaks_nonvacuous :
   zw_only_breaks md_pb_out /\ (Forall covers_chars md_pb_out -> False) /\
   document_markdown ascii_uni false md_pb_src md_pb_evs = Ok md_pb_out.
 Proof. exact document_markdown_breaks_example. Qed.
+
+(* ---------- phase 7: zero-width NEWLINES (Markdown's Start(List) arm) that condense_newlines leaves alone ---------- *)
+(* condense_spaces is parametric in every token that is no Space: it commutes with ANY map that keeps spans, fixes Spaces
+   and makes no new ones (same panics, same merges, same removals) — in particular with nl2pb *)
+Theorem C02_condense_spaces_parametric : forall (f : token -> token),
+  (forall t, tspan (f t) = tspan t) ->
+  (forall t n, tkind_of t = KSpace n -> f t = t) ->
+  (forall t, (forall n, tkind_of t <> KSpace n) -> forall n, tkind_of (f t) <> KSpace n) ->
+  forall ts, condense_spaces (map f ts) =
+    match condense_spaces ts with Ok t1 => Ok (map f t1) | Panic p => Panic p end.
+Proof. exact condense_spaces_map. Qed.
+Check C02_condense_spaces_parametric : forall (f : token -> token),
+  (forall t, tspan (f t) = tspan t) ->
+  (forall t n, tkind_of t = KSpace n -> f t = t) ->
+  (forall t, (forall n, tkind_of t <> KSpace n) -> forall n, tkind_of (f t) <> KSpace n) ->
+  forall ts, condense_spaces (map f ts) =
+    match condense_spaces ts with Ok t1 => Ok (map f t1) | Panic p => Panic p end.
+Print Assumptions C02_condense_spaces_parametric.
+
+(* EVERY vector with the property's invariant is PbGapped once its zero-width Newlines are read as floating breaks (no order
+   clause, no premise on the zero-width tokens) *)
+Theorem C02_tokinv_nl2pb : forall n ts, TokInv n ts -> PbGapped 0 n (map nl2pb ts).
+Proof. exact tokinv_nl2pb. Qed.
+Check C02_tokinv_nl2pb : forall n ts, TokInv n ts -> PbGapped 0 n (map nl2pb ts).
+Print Assumptions C02_tokinv_nl2pb.
+
+(* Document::parse (all nine passes + the look-up) on every TokInv vector of the decidable class nl_inertb (zero-width
+   Newlines count >= 2 lines; after condense_spaces none is a vector-neighbour of a Newline): never panics, result PbGapped
+   (TokInv, zero-width only ParagraphBreaks), quotes paired *)
+Theorem C02_document_passes_inert_newlines : forall src t0,
+  TokInv (length src) t0 -> nl_inertb t0 = true ->
+  exists t9, document_passes src t0 = Ok t9 /\ PbGapped 0 (length src) t9 /\
+    QuotesOkBut (unpaired_quote t9) t9 /\ (NoTwins t0 -> QuotesOk t9).
+Proof. exact document_passes_tokinv_nl. Qed.
+Check C02_document_passes_inert_newlines : forall src t0,
+  TokInv (length src) t0 -> nl_inertb t0 = true ->
+  exists t9, document_passes src t0 = Ok t9 /\ PbGapped 0 (length src) t9 /\
+    QuotesOkBut (unpaired_quote t9) t9 /\ (NoTwins t0 -> QuotesOk t9).
+Print Assumptions C02_document_passes_inert_newlines.
+
+(* Document::new over Markdown for the streams WITH a Start(List) Newline of class nl_inertb; what is left is exactly
+   md_doc_class ts = 2 (a zero-width Newline that condense_newlines merges with a neighbour: needs the order clause) *)
+Theorem C02_document_markdown_inert_newlines : forall u ilt src evs,
+  Forall valid_char src -> md_contract src evs ->
+  exists ts, markdown_parse u ilt src evs = Ok ts /\ TokInv (length src) ts /\
+    (nl_inertb ts = true ->
+     exists t9, document_markdown u ilt src evs = Ok t9 /\
+       TokInv (length src) t9 /\ zw_only_breaks t9 /\ QuotesOkBut (unpaired_quote t9) t9 /\
+       (NoTwins ts -> QuotesOk t9)).
+Proof. exact document_markdown_inert_newlines. Qed.
+Check C02_document_markdown_inert_newlines : forall u ilt src evs,
+  Forall valid_char src -> md_contract src evs ->
+  exists ts, markdown_parse u ilt src evs = Ok ts /\ TokInv (length src) ts /\
+    (nl_inertb ts = true ->
+     exists t9, document_markdown u ilt src evs = Ok t9 /\
+       TokInv (length src) t9 /\ zw_only_breaks t9 /\ QuotesOkBut (unpaired_quote t9) t9 /\
+       (NoTwins ts -> QuotesOk t9)).
+Print Assumptions C02_document_markdown_inert_newlines.
+
+(* non-vacuity: the real stream of `a\n\n- b` — Word 0..1, ParagraphBreak 0..0, zero-width Newline(2) 3..3, Word 5..6: class 1 *)
+Example C02_document_markdown_inert_newlines_nonvacuous :
+  md_contract md_nl_src md_nl_evs /\
+  markdown_parse ascii_uni false md_nl_src md_nl_evs = Ok md_nl_out /\
+  md_doc_class md_nl_out = 1 /\ nl_inertb md_nl_out = true /\
+  document_markdown ascii_uni false md_nl_src md_nl_evs = Ok md_nl_doc.
+Proof. exact document_markdown_inert_newlines_example. Qed.
+
+(* the remaining class is inhabited (the vector of C02_zero_width_newline_limit, Newline(2)) *)
+Example C02_md_doc_class_remaining :
+  md_doc_class [mktok (mkspan 0 3) KWord; mktok (mkspan 1 1) (KNewline 2); mktok (mkspan 3 4) (KNewline 1)] = 2.
+Proof. exact md_doc_class_remaining_example. Qed.
